@@ -53,6 +53,14 @@ def configs(tier):
         out.append(dict(kind="anderson", depth=depth, restart=restart, n=4 if restart is None else 2 * restart + 1))
     for hist in hs:
         out.append(dict(kind="mg_hetero", shape="4x4", hist=hist, depth=0))
+    # one solver object used on arrays of DIFFERENT sizes: the earlier (smaller) array must not shape the later solve
+    for first, main, depth in (([4], [8], 1), ([8], [4], 1)) + (() if tier == "quick" else (([4], [16], 2), ([4, 4], [8, 8], 1), ([16], [8], 2))):
+        out.append(dict(kind="mg_sizes", first=first, main=main, depth=depth))
+        out.append(dict(kind="jacobi_sizes", first=first, main=main))
+    # the discretisation of a new Wasserstein solver object does not depend on objects built earlier in the process
+    for shp in ([2, 2], [3, 2], [2, 1, 2]) + (() if tier == "quick" else ([3], [3, 3], [2, 2, 2])):
+        for method in ("newton", "bregman"):
+            out.append(dict(kind="wasserstein_setup", gshape=shp, method=method))
     return out
 
 
@@ -120,12 +128,66 @@ def _params(tag):
     return dict(mu=S.real(f"mu{tag}", lo="1/10", hi=10), omega=S.real(f"om{tag}", lo="1/10", hi=10), h=S.real(f"h{tag}", lo="1/4", hi=4), ell=S.real(f"ell{tag}", lo="1/10", hi=10))
 
 
+def body_sizes(cfg, da):
+    first, main = tuple(cfg["first"]), tuple(cfg["main"])
+    dim = len(main)
+    P = _params("p")
+    Q = _params("q")
+    a0, a = S.array("first", first, lo=-10, hi=10), S.array("img", main, lo=-10, hi=10)
+    rhs = S.array("rhs", main, lo=-10, hi=10)
+    if cfg["kind"] == "mg_sizes":
+        mk = lambda om, mu: da.MG(depth=cfg["depth"], smoother_iterations=1, maxiter=1, dim=dim, mass_coeff=om, diffusion_coeff=mu)  # noqa: E731
+    else:
+        mk = lambda om, mu: da.Jacobi(maxiter=1, dim=dim, mass_coeff=om, diffusion_coeff=mu)  # noqa: E731
+    M = mk(Q["omega"], Q["mu"])
+    M(a0.copy(), a0.copy())
+    M.update_params(mass_coeff=P["omega"], diffusion_coeff=P["mu"], dim=dim)
+    got = M(a.copy(), rhs.copy())
+    ref = mk(P["omega"], P["mu"])(a.copy(), rhs.copy())
+    S.claim("solve_after_a_solve_on_another_array_size_equals_fresh_solver", S.and_(np.shape(got) == np.shape(ref), S.eq(got, ref) if np.shape(got) == np.shape(ref) else False))
+    S.observe("got", got)
+
+
+def body_wasserstein_setup(cfg, da):
+    import darsia.measure.wasserstein as ws
+
+    shape = tuple(cfg["gshape"])
+    dim = len(shape)
+    cls = ws.WassersteinDistanceNewton if cfg["method"] == "newton" else ws.WassersteinDistanceBregman
+    g = [S.real(f"g{d}", lo="1/100", hi=100) for d in range(dim)]
+    h = [S.real(f"h{d}", lo="1/100", hi=100) for d in range(dim)]
+    cls(da.Grid(shape, list(g)), None, {})  # an earlier solver object on a grid of the same shape, other spacing
+    grid = da.Grid(shape, list(h))
+    W = cls(grid, None, {})
+    nf, nc = int(grid.num_faces), int(grid.num_cells)
+    u = S.array("u", nf, lo=-10, hi=10)
+    p = S.array("p", nc, lo=-10, hi=10)
+    lam = S.real("lam", lo=-10, hi=10)
+    D = da.FVDivergence(grid).mat
+    Mc = da.FVMass(grid).mat
+    Mf = da.FVMass(grid, "faces", True).mat
+    S.claim("new_solver_object_has_the_divergence_of_its_own_grid", S.eq(W.div.dot(u), D.dot(u)))
+    S.claim("new_solver_object_has_the_mass_matrices_of_its_own_grid", S.and_(S.eq(W.mass_matrix_cells.dot(p), Mc.dot(p)), S.eq(W.mass_matrix_faces.dot(u), Mf.dot(u))))
+    x = np.concatenate([u, p, np.array([lam], dtype=u.dtype)])
+    c = int(W.constrained_cell_flat_index)
+    top = Mf.dot(u) - D.T.dot(p)
+    mid = D.dot(u)
+    mid = np.array([mid[i] - (lam if i == c else 0) for i in range(nc)], dtype=u.dtype)
+    want = np.concatenate([top, mid, np.array([p[c]], dtype=u.dtype)])
+    S.claim("initial_darcy_operator_is_assembled_from_the_operators_of_its_own_grid", S.eq(W.darcy_init.dot(x), want))
+    S.observe("div_u", W.div.dot(u))
+
+
 def body(cfg):
     import darsia as da
 
     k = cfg["kind"]
     if k == "anderson":
         return body_anderson(cfg, da)
+    if k in ("mg_sizes", "jacobi_sizes"):
+        return body_sizes(cfg, da)
+    if k == "wasserstein_setup":
+        return body_wasserstein_setup(cfg, da)
     shape = SHAPES[cfg["shape"]]
     dim = len(shape)
     img = S.array("img", shape, lo=-5, hi=5)
